@@ -22,7 +22,9 @@ pub fn epoll(arg: &str) -> String {
     let mut workers = 2usize;
     let mut plan = "";
     let mut failadd: Vec<usize> = Vec::new();
+    let mut maxev: usize = 0;
     for w in arg.split_whitespace() {
+        if let Some(v) = w.strip_prefix("maxev=") { maxev = v.parse().unwrap_or(0) }
         if let Some(v) = w.strip_prefix("w=") { workers = v.parse().unwrap_or(2) }
         if let Some(v) = w.strip_prefix("plan=") { plan = v }
         if let Some(v) = w.strip_prefix("failadd=") {
@@ -36,6 +38,10 @@ pub fn epoll(arg: &str) -> String {
     let stop = Arc::new(AtomicBool::new(false));
     let mut b = Server::builder(format!("127.0.0.1:{port}")).unwrap();
     b.thread_count(workers);
+    if maxev > 0 {
+        // a tiny event buffer: every batch is "full"
+        b.epoll_queue_max_events(maxev);
+    }
     b.route(Method::Post, "/echo", |mut ctx, res| {
         let body = ctx.body().vec()?;
         res.ok(Headers::empty_nodate(), body)
